@@ -159,24 +159,28 @@ impl Fixture {
         add("reserve_ephemeral@mid", 1, Arc::new(|w, _| e(w.db.reserve_next_n_ephemeral_addresses(w.acct_a, 3)).map(|r| r.len().to_string())));
         add("reserve_internal@mid", 1, Arc::new(|w, _| e(w.db.reserve_next_n_internal_addresses(w.acct_a, 2)).map(|r| r.len().to_string())));
         // --- subtree roots
-        add(
-            "roots@fresh",
-            0,
-            Arc::new(|w, fx| {
-                for b in fx.u.chains[0].blocks.values() {
-                    for (pool, idx, root) in &b.completed {
-                        let h = BlockHeight::from_u32(b.height);
-                        match (pool, root) {
-                            (Pool::Sapling, ShardRoot::Sapling(n)) => e(w.db.put_sapling_subtree_roots(*idx, &[CommitmentTreeRoot::from_parts(h, *n)]))?,
-                            (Pool::Orchard, ShardRoot::Orchard(n)) => e(w.db.put_orchard_subtree_roots(*idx, &[CommitmentTreeRoot::from_parts(h, *n)]))?,
-                            (Pool::Ironwood, ShardRoot::Orchard(n)) => e(w.db.put_ironwood_subtree_roots(*idx, &[CommitmentTreeRoot::from_parts(h, *n)]))?,
-                            _ => unreachable!(),
+        // Each put_*_subtree_roots call is one wallet write operation (one transaction).
+        for (opname, pool) in [("sapling_roots@fresh", Pool::Sapling), ("orchard_roots@fresh", Pool::Orchard)] {
+            add(
+                opname,
+                0,
+                Arc::new(move |w, fx| {
+                    for b in fx.u.chains[0].blocks.values() {
+                        for (p, idx, root) in &b.completed {
+                            if *p != pool {
+                                continue;
+                            }
+                            let h = BlockHeight::from_u32(b.height);
+                            match root {
+                                ShardRoot::Sapling(n) => e(w.db.put_sapling_subtree_roots(*idx, &[CommitmentTreeRoot::from_parts(h, *n)]))?,
+                                ShardRoot::Orchard(n) => e(w.db.put_orchard_subtree_roots(*idx, &[CommitmentTreeRoot::from_parts(h, *n)]))?,
+                            }
                         }
                     }
-                }
-                Ok(String::new())
-            }),
-        );
+                    Ok(String::new())
+                }),
+            );
+        }
         add(
             "sapling_roots@full",
             2,
